@@ -111,9 +111,14 @@ m("C05", "backup-shared-name", C,
   '''                "BACKUP = get(KEY, __marker)",
                 BACKUP=identifier("backup_%s" % name, name),''')
 m("C05", "no-merge-after-internal-macro", C,
-  '''            f=render) + \\
-            template("econtext.update(rcontext)")''',
-  '''            f=render)''')
+  '''        return token_reset + self._merge_globals(node, template(
+            "f(__stream, econtext.copy(), rcontext, "
+            "__i18n_domain, __i18n_context, target_language)",
+            f=render))''',
+  '''        return token_reset + template(
+            "f(__stream, econtext.copy(), rcontext, "
+            "__i18n_domain, __i18n_context, target_language)",
+            f=render)''')
 m("C05", "macro-shares-scope", C,
   '''            "f(__stream, econtext.copy(), rcontext, "''',
   '''            "f(__stream, econtext, rcontext, "''')
@@ -802,11 +807,14 @@ m("C09", "macro-gets-callers-scope", C,
   '''                "__m(__stream, econtext.copy(), "''',
   '''                "__m(__stream, econtext, "''')
 m("C09", "no-merge-after-external-macro", C,
-  '''                "rcontext, __i18n_domain, __i18n_context, target_language)"
-            ) +
-            template("econtext.update(rcontext)")
+  '''            self._merge_globals(node, template(
+                "__m(__stream, econtext.copy(), "
+                "rcontext, __i18n_domain, __i18n_context, target_language)"
+            ))
         )''',
-  '''                "rcontext, __i18n_domain, __i18n_context, target_language)"
+  '''            template(
+                "__m(__stream, econtext.copy(), "
+                "rcontext, __i18n_domain, __i18n_context, target_language)"
             )
         )''')
 m("C09", "macroname-global", ZP,
@@ -1050,9 +1058,9 @@ m("C12", "macro-call-no-tokenref", C,
             template("__m = __macro.include") +''')
 m("C12", "internal-macro-keeps-token", C,
   '''        token_reset = template("__token = None")
-        return token_reset + template(''',
+        return token_reset + self._merge_globals(''',
   '''        token_reset = []
-        return token_reset + template(''')
+        return token_reset + self._merge_globals(''')
 m("C12", "program-stores-other-text", "program.py",
   "        self.source = source\n        tokens = tokenizer(source, filename)",
   "        self.source = source\n        source = source.expandtabs()\n        tokens = tokenizer(source, filename)")
@@ -2138,3 +2146,24 @@ m("C10", "default-content-untranslated", ZP,
                     # content stands in for it: it is the message then.
                     content = nodes.Translate('', content)
 ''', "")
+
+for _p in ("C05", "C09"):
+    m(_p, "macro-merge-all-globals", C,
+      '''            template(
+                "econtext.update(\\n"
+                "    __item for __item in rcontext.items()\\n"
+                "    if SNAPSHOT.get(__item[0], __marker) is not __item[1])",
+                SNAPSHOT=snapshot)''',
+      '''            template("econtext.update(rcontext)")''')
+    m(_p, "macro-merge-new-names-only", C,
+      '''                "    if SNAPSHOT.get(__item[0], __marker) is not __item[1])",''',
+      '''                "    if __item[0] not in SNAPSHOT)",''')
+m("C05", "macro-merge-snapshot-shared", C,
+  '''        snapshot = identifier("__globals", id(node))''',
+  '''        snapshot = "__globals"''')
+m("C09", "macro-merge-snapshot-after-call", C,
+  '''        return template("SNAPSHOT = rcontext.copy()", SNAPSHOT=snapshot) + \\
+            call + \\
+''', '''        return call + \\
+            template("SNAPSHOT = rcontext.copy()", SNAPSHOT=snapshot) + \\
+''')
